@@ -5,6 +5,7 @@ import (
 	"go/ast"
 	"go/token"
 	"go/types"
+	"regexp"
 	"strings"
 
 	"dsverif/internal/an"
@@ -138,7 +139,7 @@ func c14MergeMarker(c *core.Ctx, pkg *packages.Package) {
 var c14Reviewed = map[string]string{
 	"(*PartitionRing).GetTokenRangesForPartition$1|(λp0 - 1)":                                            "compared with the previous range end only: start==0 yields 2^32-1, which no earlier range of the ascending walk can end at (the wrap-around range is added last)",
 	"(*PartitionRing).GetTokenRangesForPartition|(each(recv.desc.Partitions[p0].Tokens) - 1)":            "intended wrap: the owner of token 0 owns the range ending at 2^32-1, handled as the 'last range'",
-	"(*Ring).GetTokenRangesForInstance|(recv.ringTokensByZone[recv.ringDesc.Ingesters[p0].Zone][i] - 1)": "i > 0 in a strictly ascending token list: the token is ≥ 1",
+	"(*Ring).GetTokenRangesForInstance|(recv.ringTokensByZone[recv.ringDesc.Ingesters[p0].Zone][ℓ] - 1)": "i > 0 in a strictly ascending token list: the token is ≥ 1",
 	"(*Ring).GetTokenRangesForInstance|(recv.ringTokensByZone[recv.ringDesc.Ingesters[p0].Zone][0] - 1)": "guarded by firstToken != 0 (checked below)",
 	"tokenDistance|(p1 - p0)": "guarded by from < to (checked below)",
 }
@@ -185,7 +186,29 @@ func c14Arithmetic(c *core.Ctx, pkg *packages.Package) {
 			if expr == nil {
 				return true
 			}
-			key := fn.Name + "|" + fn.Canon(expr)
+			canon := fn.Canon(expr)
+			// locals that are assigned more than once keep their name in the canonical form: make the key independent of it
+			var visit func(e ast.Expr, depth int)
+			visit = func(e ast.Expr, depth int) {
+				ast.Inspect(e, func(m ast.Node) bool {
+					id, ok := m.(*ast.Ident)
+					if !ok {
+						return true
+					}
+					v, ok := fn.Info().Uses[id].(*types.Var)
+					if !ok || v.IsField() || v.Parent() == nil || v.Parent() == v.Pkg().Scope() {
+						return true
+					}
+					if fn.DefCount(v) > 1 {
+						canon = regexp.MustCompile(`\b`+regexp.QuoteMeta(id.Name)+`\b`).ReplaceAllString(canon, "ℓ")
+					} else if d, ok := fn.SingleDefExpr(v); ok && depth < 4 {
+						visit(d, depth+1)
+					}
+					return true
+				})
+			}
+			visit(expr, 0)
+			key := fn.Name + "|" + canon
 			if why, ok := c14Reviewed[key]; ok {
 				if !seen[key] {
 					seen[key] = true
